@@ -20,6 +20,21 @@ GENS = {
     "Clamp": [["p", "clamp.txt"]],
     "TClamp": [["p", "out"], ["q", "o.txt"]],
 }
+# declared argument names, declaration order (what ConfigInformation.xpmvalues() iterates; tied to the real
+# ObjectType.arguments on every run, obligation tie:class-table)
+DECLS = {
+    "Leaf": ["v", "p"],
+    "Two": ["v", "c", "p1", "p2", "p3"],
+    "FnGen": ["v", "p"],
+    "NoGen": ["v", "c", "l"],
+    "Node": ["v", "c", "c2", "l", "d", "ll", "dl", "p", "q"],
+    "Pre": ["v", "c", "p"],
+    "Out": ["v", "src", "p"],
+    "Producer": ["v", "c", "p"],
+    "T": ["v", "c", "c2", "l", "d", "ll", "dl", "p", "q"],
+    "Clamp": ["v", "c", "p"],
+    "TClamp": ["v", "c", "c2", "l", "d", "p", "q"],
+}
 # fields able to hold configurations, declaration order
 SHAPE = {
     "Leaf": [], "FnGen": [],
@@ -125,7 +140,10 @@ def gen_case(rng, odd):
         cur[0] = i
         for f in SHAPE[nd["cls"]]:
             if rng.random() < (0.75 if i == 0 else 0.5):
-                if f in ("c", "c2"):
+                if f == "c2" and nd["fields"] and nd["fields"][-1][0] == "c" and rng.random() < 0.3:
+                    # one sub-configuration held by two parameters of the same object
+                    nd["fields"].append([f, dict(nd["fields"][-1][1])])
+                elif f in ("c", "c2"):
                     nd["fields"].append([f, ref()])
                 elif f == "l":
                     nd["fields"].append([f, reflist()])
@@ -140,11 +158,24 @@ def gen_case(rng, odd):
         later = [p for p in pres if p > i] or (pres if rng.random() < 0.05 else [])
         if later and rng.random() < (0.6 if i == 0 else 0.3):
             nd["pre"] = [rng.choice(later) for _ in range(rng.choice([1, 1, 2]))]
-        nd["order"] = rng.sample(range(len(nd["fields"])), len(nd["fields"]))
     if pres and rng.random() < 0.4:
         nodes[0]["init"] = [rng.choice(pres) for _ in range(rng.choice([1, 2]))]
-    # the second submit is a fresh copy; for half of the cases its dicts are filled in the opposite order
-    return dict(root=0, producers=producers, nodes=nodes, reorder=rng.random() < 0.5)
+    # how each configuration is built: the parameters in the order `order`, the first `kw` of them as
+    # constructor keywords (when the objects they name exist already), the others by assignment; the
+    # .values dict of the configuration is in that assignment order.  order2/kw2: another way of
+    # building the same configuration (used by the second submit when `reassign`)
+    for nd in nodes:
+        if nd["cls"] == "Out":
+            continue
+        names = [k for k, _ in nd["fields"]]
+        nd["order"] = rng.sample(names, len(names))
+        nd["kw"] = rng.choice([0, len(names), rng.randrange(len(names) + 1)])
+        nd["order2"] = list(reversed(nd["order"])) if rng.random() < 0.5 else rng.sample(names, len(names))
+        nd["kw2"] = rng.choice([0, len(names), len(names), rng.randrange(len(names) + 1)])
+    # the second submit is a fresh copy of the same configuration: identical, or its dicts filled in the
+    # opposite order, or its parameters assigned in another order
+    m = rng.random()
+    return dict(root=0, producers=producers, nodes=nodes, reorder=m < 0.35, reassign=0.35 <= m < 0.7)
 
 
 def values_in(v):
@@ -205,10 +236,18 @@ def gvalue(v):
     raise ValueError(t)
 
 
-def gnode(nd):
+def assigned_fields(nd, vorder):
+    """the fields in the order of the .values dict of the real configuration (assignment order)"""
+    if not vorder:
+        return nd["fields"]
+    pos = {name: k for k, name in enumerate(vorder)}
+    return sorted(nd["fields"], key=lambda kv: pos[kv[0]])
+
+
+def gnode(nd, vorder=None):
     return ("(Build_node %s %s %s %s %s %s)" % (
         gnat(CLASS_ORDER.index(nd["cls"])),
-        glist(f"(F {gstr(k)} {gvalue(v)})" for k, v in nd["fields"]),
+        glist(f"(F {gstr(k)} {gvalue(v)})" for k, v in assigned_fields(nd, vorder)),
         glist(gnat(x) for x in nd["pre"]), glist(gnat(x) for x in nd["init"]),
         "None" if nd.get("task") is None else f"(Some {gnat(nd['task'])})", gbool(nd["sealed"])))
 
@@ -243,11 +282,15 @@ def g_gens(classes):
 
 def g_case(c):
     a = c["ans"]
-    heap = glist(gnode(nd) for nd in c["nodes"])
+    heap = glist(gnode(nd, vo) for nd, vo in zip(c["nodes"], a["vorder"]))
     v1 = gvalues(a["values"], a["sealed"])
     v2 = gvalues(a["values2"], a["sealed"])
     ans = "(let v := %s in Build_answer %s v %s)" % (v1, glist(gbool(b) for b in a["sealed"]), "v" if v1 == v2 else v2)
-    return f"(Case {heap} gens {gnat(c['root'])} {ans})"
+    return f"(Case {heap} gens decls {gnat(c['root'])} {ans})"
+
+
+def g_decls(decls):
+    return glist(glist(gstr(x) for x in decls[name]) for name in CLASS_ORDER)
 
 
 # ------------------------------------------------------------------ oracle (independent of the model)
@@ -270,7 +313,8 @@ def oracle(case):
     first, second = a["first"], a["second"]
     jd = first["jobdir"]
     why = "plain-keys" if all(is_plain(k) for k in case_keys(case)) else "nonplain-dict-key"
-    small = dict(root=case["root"], producers=case["producers"], nodes=case["nodes"], reorder=bool(case.get("reorder")))
+    small = dict(root=case["root"], producers=case["producers"], nodes=case["nodes"], reorder=bool(case.get("reorder")),
+                 reassign=bool(case.get("reassign")))
     new = [v for v in first["values"] if v["path"] is not None and not first["sealed"][v["node"]]]
     jparts = resolve(jd["parts"])
     seen = {}
@@ -306,6 +350,16 @@ def oracle(case):
                                  "filled in another order received other generated paths",
                             data=dict(case=small, first=[x for x, y in zip(r1, r2) if x != y],
                                       second=[y for x, y in zip(r1, r2) if x != y])))
+        elif case.get("reassign") and first.get("vorder") != second.get("vorder"):
+            diff = [dict(node=i, first=a1, second=a2)
+                    for i, (a1, a2) in enumerate(zip(first["vorder"], second["vorder"])) if a1 != a2]
+            out.append(dict(key="C17:paths-depend-on-assignment-order",
+                            what="the same configuration (same identifier and job directory) with its parameters "
+                                 "assigned in another order (constructor keywords / attribute assignments) "
+                                 "received other generated paths",
+                            data=dict(case=small, values_order=diff,
+                                      first=[dict(v, path=x) for v, x, y in zip(first["values"], r1, r2) if x != y],
+                                      second=[dict(v, path=y) for v, x, y in zip(second["values"], r1, r2) if x != y])))
         else:
             out.append(dict(key=f"C17:not-reproducible:{why}",
                             what="submitting the same configuration again gave other paths",
@@ -322,10 +376,12 @@ def reductions(case):
 
     def emit(mut):
         c2 = copy.deepcopy(dict(root=case["root"], producers=case["producers"], nodes=case["nodes"],
-                                reorder=bool(case.get("reorder"))))
+                                reorder=bool(case.get("reorder")), reassign=bool(case.get("reassign"))))
         mut(c2["nodes"])
         for nd in c2["nodes"]:
-            nd.pop("order", None)
+            # plans name the parameters: a removed one is simply skipped by the driver
+            if any(isinstance(x, int) for x in nd.get("order") or []):
+                nd.pop("order", None)
         res.append(c2)
 
     def sub(v, path):
@@ -383,16 +439,17 @@ def run_cases(c, cases):
 
     def one(k):
         if not chunks[k]:
-            return dict(classes=None, answers=[])
+            return dict(classes=None, decls=None, answers=[])
         return run_impl("drive_c17.py", dict(workdir=str(wd / f"w{k}"), cases=chunks[k]), timeout=3000)
 
     with ThreadPoolExecutor(max_workers=nproc) as ex:
         res = list(ex.map(one, range(nproc)))
     classes = next(r["classes"] for r in res if r["classes"] is not None)
+    decls = next(r["decls"] for r in res if r["decls"] is not None)
     for k, r in enumerate(res):
         for case, a in zip(chunks[k], r["answers"]):
             case["raw"] = a
-    return classes
+    return classes, decls
 
 
 HEADER = ("From Coq Require Import ZArith NArith List Bool String.\n"
@@ -407,7 +464,12 @@ def run(c: Check):
               "cases draw dict keys that are not plain names; non-trivial = at least 3 generated values set by "
               "this submit at >=2 different nesting depths, distinct by heap; some classes rewrite a "
               "signature-relevant parameter in __validate__ (v > 50) so that the job directory is only known after "
-              "validation; half of the second submits fill every dict in the opposite order")
+              "validation; every configuration is built in a random way (parameters in a random order, a random "
+              "number of them as constructor keywords, the others by assignment: the .values dict is in that "
+              "assignment order, reported by the driver and given to the model), 30% of the Node/T objects hold one "
+              "sub-configuration in two parameters; the second submit is a fresh copy of the same configuration: "
+              "35% with every dict filled in the opposite order, 35% with the parameters assigned in another "
+              "order, 30% identical")
     c.build()
     c.props()
     n = 1600 if c.quick else 20000
@@ -424,10 +486,10 @@ def run(c: Check):
         cases.extend(json.load(open(gold)))
     for i in range(n):
         cases.append(gen_case(c.rng, odd=(i % 4 == 3)))
-    classes = run_cases(c, cases)
-    ok_tab = classes == GENS
+    classes, decls = run_cases(c, cases)
+    ok_tab = classes == GENS and decls == DECLS
     c.obligations.append(dict(name="tie:class-table", kind="tie", ok=ok_tab,
-                              detail="" if ok_tab else f"declared generators differ: {classes}"))
+                              detail="" if ok_tab else f"declared generators / arguments differ: {classes} {decls}"))
     good = []
     for case in cases:
         a = case["raw"]
@@ -440,7 +502,7 @@ def run(c: Check):
         case["classes"] = classes
         first, second = a["first"], a["second"]
         jd = first["jobdir"]
-        case["ans"] = dict(sealed=first["sealed"],
+        case["ans"] = dict(sealed=first["sealed"], vorder=first["vorder"],
                            values=[dict(v, path=rel_to_job(v["path"], jd)) for v in first["values"]],
                            values2=[dict(v, path=rel_to_job(v["path"], second["jobdir"])) for v in second["values"]])
         good.append(case)
@@ -451,7 +513,17 @@ def run(c: Check):
         c.count("submit:" + (first["exc"] or "ok"))
         c.count("keys:" + ("plain" if all(is_plain(k) for k in case_keys(case)) else "nonplain"))
         c.count(f"producers={len(case['producers'])}")
-        c.count("second-copy:" + ("dicts-reversed" if case.get("reorder") else "identical"))
+        c.count("second-copy:" + ("dicts-reversed" if case.get("reorder") else
+                                  "parameters-assigned-in-another-order" if case.get("reassign") else "identical"))
+        for nd, vo in zip(case["nodes"], first["vorder"]):
+            names = [k for k, _ in assigned_fields(nd, vo)]
+            c.count("values-order:" + ("declaration" if names == [k for k, _ in nd["fields"]] else "other"))
+        if case.get("reassign") and first["vorder"] != second["vorder"]:
+            c.count("second-copy-values-order-differs")
+        if any(len([1 for _, fv in nd["fields"] if any(x == dict(t="ref", n=t) for x in values_in(fv))]) > 1
+               for nd in case["nodes"] if not nd["sealed"] for t in range(len(case["nodes"]))
+               if not case["nodes"][t]["sealed"]):
+            c.count("one-configuration-held-by-two-parameters-of-a-node")
         if any(nd["cls"] in CLAMPS and any(k == "v" and fv["v"] > 50 for k, fv in nd["fields"])
                for nd in case["nodes"]):
             c.count("validate-rewrites-identifier")
@@ -469,7 +541,8 @@ def run(c: Check):
                 c.violation(v["key"], v["what"], v["data"])
     c.samples = [dict(nodes=x["nodes"], producers=x["producers"], jobdir=x["raw"]["first"]["jobdir"],
                       values=x["ans"]["values"]) for x in good[:2]]
-    header = HEADER + "Definition gens := " + g_gens(classes) + ".\n"
+    header = (HEADER + "Definition gens := " + g_gens(classes) + ".\n"
+              + "Definition decls := " + g_decls(decls) + ".\n")
     bad = c.corr_shards("corr", header, good, g_case, "check_case", shard=100)
     if bad:
         # which behaviour does the tree have?  check_case_insertion: before fixes/C17-2.diff (dicts walked in
@@ -478,7 +551,9 @@ def run(c: Check):
         saved = list(c.obligations)
         bad_ins = c.corr_shards("diag", header, sub, g_case, "check_case_insertion", shard=100)
         bad_prefix = c.corr_shards("diag2", header, sub, g_case, "check_case_prefix", shard=100)
+        bad_asg = c.corr_shards("diag3", header, sub, g_case, "check_case_assigned", shard=100)
         c.obligations = saved
+        c.extra["disagreeing_cases_match_assignment_order_walk"] = len(sub) - len(bad_asg)
         c.extra["disagreeing_cases_match_insertion_order_model"] = len(sub) - len(bad_ins)
         c.extra["disagreeing_total"] = len(bad)
         c.extra["disagreeing_with_nonplain_keys"] = sum(
@@ -489,7 +564,7 @@ def run(c: Check):
                                          values=good[i]["ans"]["values"]) for i in bad[:3]]
     if bad and not c.violations:
         c.extra["replay_cases"] = [dict(root=good[i]["root"], producers=good[i]["producers"], nodes=good[i]["nodes"],
-                                        reorder=bool(good[i].get("reorder")))
+                                        reorder=bool(good[i].get("reorder")), reassign=bool(good[i].get("reassign")))
                                    for i in bad[:5]]
     c.level_assumptions = [
         "pathlib.PurePosixPath parsing/joining is modelled (GenPath.parse/pjoin), not verified; the job directory "
